@@ -38,6 +38,26 @@ type icStack struct {
 	coin               *rand.Rand
 	viaPlugin          bool
 	interleave         []byte // installation order of kinds, e.g. "tsetse"
+	stageAt            int    // interceptors interleave[stageAt:] are installed only after a first parser was built from the builders
+}
+
+// prefix is the stack consisting of the first n installed interceptors.
+func (s *icStack) prefix(n int) *icStack {
+	p := *s
+	p.interleave = s.interleave[:n]
+	p.nTok, p.nStmt, p.nExpr = 0, 0, 0
+	for _, k := range p.interleave {
+		switch k {
+		case 't':
+			p.nTok++
+		case 's':
+			p.nStmt++
+		case 'e':
+			p.nExpr++
+		}
+	}
+	p.stageAt = n
+	return &p
 }
 
 type icRun struct {
@@ -46,7 +66,9 @@ type icRun struct {
 	out    ParseOut
 }
 
-func (s *icStack) build(m Mode, run *icRun) *parser.Builder {
+// build installs the first stageAt interceptors and returns the builder plus a function that installs the rest
+// (on the same lexer and parser builders), to be called after a parser has already been built.
+func (s *icStack) build(m Mode, run *icRun) (*parser.Builder, func()) {
 	lb := lexer.NewBuilder()
 	pb := parser.NewBuilder(lb)
 	if m.Tolerant {
@@ -112,10 +134,14 @@ func (s *icStack) build(m Mode, run *icRun) *parser.Builder {
 			}
 		}
 	}
-	for _, k := range s.interleave {
+	for _, k := range s.interleave[:s.stageAt] {
 		install(k)
 	}
-	return pb
+	return pb, func() {
+		for _, k := range s.interleave[s.stageAt:] {
+			install(k)
+		}
+	}
 }
 
 func randStack(r *rand.Rand, allowReentrant bool) *icStack {
@@ -136,11 +162,15 @@ func randStack(r *rand.Rand, allowReentrant bool) *icStack {
 		s.interleave = append(s.interleave, 'e')
 	}
 	r.Shuffle(len(s.interleave), func(i, j int) { s.interleave[i], s.interleave[j] = s.interleave[j], s.interleave[i] })
+	s.stageAt = len(s.interleave)
+	if r.IntN(3) == 0 {
+		s.stageAt = r.IntN(len(s.interleave) + 1)
+	}
 	return s
 }
 
 func (s *icStack) String() string {
-	return fmt.Sprintf("tok=%d stmt=%d expr=%d reentrant=%v plugin=%v order=%s", s.nTok, s.nStmt, s.nExpr, s.reentrant, s.viaPlugin, string(s.interleave))
+	return fmt.Sprintf("tok=%d stmt=%d expr=%d reentrant=%v plugin=%v order=%s|%s", s.nTok, s.nStmt, s.nExpr, s.reentrant, s.viaPlugin, string(s.interleave[:s.stageAt]), string(s.interleave[s.stageAt:]))
 }
 
 func plainTokens(src string) []token.Token {
@@ -167,8 +197,20 @@ func checkInterception(t *fw.T, src string, rd *gen.Rendered, s *icStack, m Mode
 	run := &icRun{}
 	s.coin = rand.New(rand.NewPCG(seed, 77))
 	var pb *parser.Builder
-	if !t.Guard("install interceptors", wit, func() { pb = s.build(m, run) }) {
+	var installRest func()
+	if !t.Guard("install interceptors", wit, func() { pb, installRest = s.build(m, run) }) {
 		return
+	}
+	if s.stageAt < len(s.interleave) {
+		// staged installation: a parser built now sees exactly the interceptors installed so far; the ones installed on the
+		// same builders afterwards must be seen by every parser built later (and only by those)
+		t.Count("staged_installations", 1)
+		if !checkOneInterceptedParse(t, src, rd, s.prefix(s.stageAt), m, pb, run, base, -1, wit) {
+			return
+		}
+		if !t.Guard("install more interceptors after a Build", wit, installRest) {
+			return
+		}
 	}
 	// one builder builds several parsers one after the other: every one of them must behave the same
 	for rep := 0; rep < 3; rep++ {
